@@ -36,7 +36,8 @@ RULE = ("workloads of 1-4 store calls (Context.store_model_entry, db.store_model
         "D = A's dataset with another datainfo, E = A's name with another model) interleaved with 0-3 log messages and "
         "annotations from a generator biased to quotes, commas, newlines, NA strings, empty, numerals, unicode; EVERY crash "
         "point of the operation trace is visited (operation k does not happen) plus torn variants (empty, half, all but one "
-        "character) of every content write; each case is one workload and one residue class of crash points; 'text' cases "
+        "character) of every content write, and every such point again as an EXCEPTION fault (the operation raises OSError, "
+        "pharmpy's finally/__exit__ code runs); each case is one workload and one residue class of points; 'text' cases "
         "are 40 generated strings each. non-trivial = at least one store and one crash point; distinct = distinct case JSON")
 TRUSTED = [
     "Lean 4.33 kernel; axioms propext, Quot.sound, Classical.choice only (audited per theorem each run)",
@@ -46,7 +47,8 @@ TRUSTED = [
     "and the assumption that pharmpy closes a file before its next file-system call (checked: the tree rebuilt from the "
     "log equals the real tree after every crash-free run)",
     "a crash is process death between two file-system operations, operations take effect in issue order; a torn write leaves "
-    "a prefix of the text (power-loss reordering of unsynced writes is outside)",
+    "a prefix of the text (power-loss reordering of unsynced writes is outside); an exception fault is OSError(ENOSPC) raised "
+    "by the operation (by fh.write() after the torn prefix for content writes), after which the code's own cleanup runs",
     "the expensive parse of an unchanged (model file, dataset, datainfo, results) content tuple is memoised per worker; the "
     "snapshot/PENDING check and every store always run for real",
     "pool models are fixed points of NONMEM code generation + parsing (normalised by one store/retrieve round trip), so "
@@ -157,16 +159,24 @@ def shrink(case):
     if case.get("kind") != "crash":
         return
     calls = case["calls"]
+    if "only" not in case and "_fail_points" not in case:
+        # evaluate once in this process to learn the failing points
+        yield {**{k: v for k, v in case.items() if not k.startswith("_")}, "chunk": 0, "nchunks": 1}
     for i in range(len(calls)):
         if len(calls) > 1:
-            c = dict(case)
+            c = {k: v for k, v in case.items() if not k.startswith("_")}
             c["calls"] = calls[:i] + calls[i + 1:]
             c["chunk"], c["nchunks"] = 0, 1
             yield c
-    if "only" not in case and case.get("_fail_point") is not None:
-        c = dict(case)
-        c["only"] = case["_fail_point"]
-        yield c
+    if "only" not in case:
+        pts = []
+        for pt in list(case.get("_fail_points", {}).values()) + [case.get("_fail_point")]:
+            if pt is not None and pt not in pts:
+                pts.append(pt)
+        for pt in pts:
+            c = {k: v for k, v in case.items() if not k.startswith("_")}
+            c["only"] = pt
+            yield c
 
 
 # ---------------------------------------------------------------- real-code side
@@ -689,6 +699,7 @@ def run_crash_case(case, drv):
     else:
         points = [p for i, p in enumerate(points) if i % case["nchunks"] == case["chunk"]]
     fail_point = None
+    fail_points = {}
     for (j, t) in points:
         ci = next(i for i, (a, b) in enumerate(bounds) if a <= j < b)
         croot = fresh_dir("crash")
@@ -708,6 +719,7 @@ def run_crash_case(case, drv):
             k.append(f"crash {j}/{t}: operations before the crash differ from the crash-free prefix")
         tags.append("crash-in:" + calls[ci][0])
         tags.append("torn" if t is not None else "cut")
+        crash_tree = real_tree(croot)
         init_crash = calls[ci][0] == "init"
         # model crash state
         if drv is not None:
@@ -739,11 +751,24 @@ def run_crash_case(case, drv):
         k += [f"crash {j}/{t} in {calls[ci][:2]}: {x}" for x in kk]
         for m in mm:
             m["what"] = f"crash at operation {j} ({flat[j][:2]}, torn={t}) of {calls[ci][:2]}: " + m["what"]
+            fail_points.setdefault(m["cls"], [j, t])
         mon += mm
+        # ---------- the same point as an EXCEPTION fault: operation j raises OSError, pharmpy's cleanup code runs
+        if not (t is None and flat[j][0] in ("write", "append")):
+            kk, mm = exception_fault(crash_tree, calls, ci, j, t, bounds, flat, drv, cmap, tags)
+            if (kk or mm) and fail_point is None:
+                fail_point = [j, t]
+            k += [f"exception at {j}/{t} in {calls[ci][:2]}: {x}" for x in kk]
+            for m in mm:
+                m["what"] = (f"operation {j} ({flat[j][:2]}, torn={t}) of {calls[ci][:2]} raises OSError: " + m["what"])
+                fail_points.setdefault(m["cls"], [j, t])
+            mon += mm
         shutil.rmtree(croot, ignore_errors=True)
     shutil.rmtree(root, ignore_errors=True)
     if fail_point is not None:
         case["_fail_point"] = fail_point
+    if fail_points:
+        case["_fail_points"] = fail_points
     # one report per class and case is enough
     seen, mon1 = set(), []
     for m in mon:
@@ -751,6 +776,66 @@ def run_crash_case(case, drv):
             seen.add(m["cls"])
             mon1.append(m)
     return {"k": k[:8], "mon": mon1, "tags": tags, "nontrivial": bool(stored) and bool(points)}
+
+
+EXC_RENAME = {"uncommitted-entry-visible", "committed-entry-unfaithful-after-crash", "committed-entry-lost",
+              "committed-name-lost", "later-store-unfaithful", "later-store-not-retrievable", "later-store-fails"}
+
+
+def exception_fault(crash_tree, calls, ci, j, t, bounds, flat, drv, cmap, tags):
+    """Operation j raises an ordinary OSError (a write after t characters); the exception leaves the call through
+    pharmpy's own finally/__exit__ blocks; then the tree is probed with fresh objects exactly as after a crash."""
+    util = G["util"]
+    k, mon = [], []
+    xroot = fresh_dir("exc")
+    outs = []
+    with util.Injector(xroot, crash_at=j, torn=t, mode="exc") as inj:
+        for c in calls:
+            out, _ = real_call(xroot, c)
+            inj.flush()
+            outs.append(out)
+            if inj.delivered:
+                break
+    if not inj.delivered:
+        raise RuntimeError(f"exception fault point {j} was not reached (log {len(inj.log)})")
+    tags.append("exc-in:" + calls[ci][0])
+    tags.append("exc-outcome:" + (outs[-1][0] if outs[-1][0] == "ok" else outs[-1][1]))
+    if len(outs) != ci + 1:
+        k.append(f"the fault was delivered in call {len(outs) - 1}, expected call {ci}")
+    got = [canon_log_entry(e[:3]) for e in inj.log]
+    is_write = flat[j][0] in ("write", "append")
+    want = flat[:j] + ([[flat[j][0], flat[j][1], flat[j][2][:t or 0]]] if is_write else [])
+    if got[:len(want)] != want:
+        k.append("operations before the fault differ from the crash-free prefix")
+    cleanup = got[len(want):]
+    tags.append("exc-cleanup-ops=%d" % len(cleanup))
+    if drv is not None:
+        drv.ask(["reset"])
+        for c in calls[:ci]:
+            drv.ask(["call", model_call(c)])
+        ans = drv.ask(["fault", model_call(calls[ci]), j - bounds[ci][0], "none" if t is None else t])
+        if ans[0] != "ok":
+            return k + [f"driver {ans}"], mon
+        mclean = [[o[0], o[1]] for o in ans[2]]
+        if [c[:2] for c in cleanup] != mclean:
+            k.append(f"cleanup operations after the exception: code {[c[:2] for c in cleanup]} model {mclean}")
+        d = diff_trees(real_tree(xroot), model_tree(drv, cmap))
+        if d:
+            k.append(f"tree {d[:3]}")
+    if real_tree(xroot) == crash_tree:
+        # identical to the crash state of the same point: the probes (deterministic functions of the tree, run with
+        # fresh objects) were just evaluated on it
+        tags.append("exc-tree=crash-tree")
+    else:
+        tags.append("exc-tree-differs-from-crash-tree")
+        kk, mm = probe_after_crash(xroot, calls, ci, j, t, bounds, flat, drv, tags)
+        k += kk
+        for m in mm:
+            if m["cls"] in EXC_RENAME:
+                m["cls"] = m["cls"].replace("-after-crash", "") + "-after-exception"
+        mon += mm
+    shutil.rmtree(xroot, ignore_errors=True)
+    return k, mon
 
 
 def real_call_raw(ctxroot, call):
